@@ -25,6 +25,7 @@ RULE = (
     "enlargement happened. One case in seven runs the ensemble-kernel variant (emcee_smc, which records an additional per-kernel series) "
     "through the problem of the run-based checks, with the length / temperature / size bookkeeping oracles on every populated series. Non-trivial = >=2 iterations or resumed from a checkpoint with >=1 completed iteration."
 )
+RULE += " " + ('(Table runs also with another output namespace, or on a sampler object that has already completed an unrelated run.)')
 ASSUMPTIONS = [
     "kernel packages are harness doubles",
     "resume uses a freshly built sampler with the same arguments and a numpy Generator with the same seed (its state is restored from the payload)",
